@@ -93,6 +93,13 @@ def discharge_panic(crate, s):
 
 def no_overflow(crate, an, fx, b, op, a, c):
     """the checked arithmetic a <op> c cannot overflow under the facts at b"""
+    if op == "Add":
+        # a * N + d with a < N, d < N and N * N representable (L-ROWMAJOR)
+        for m, d in ((a, c), (c, a)):
+            if m[0] == "bin" and m[1] == "Mul":
+                for x, N in ((m[2], m[3]), (m[3], m[2])):
+                    if square_representable(crate, an, N) and fx.holds(b, lambda rel, x=x, N=N, d=d: rel.lt(x, N) and rel.lt(d, N)):
+                        return True
     if op in ("Add",):
         # x + k does not overflow when x < y for some y (x <= MAX-1) and k == 1;
         # more generally when both operands are bounded by values whose sum is representable
@@ -103,10 +110,46 @@ def no_overflow(crate, an, fx, b, op, a, c):
         return False
     if op == "Sub":
         return fx.holds(b, lambda rel: rel.le(c, a))
+    if op in ("Shl", "Shr"):
+        if c[0] == "const" and isinstance(c[2], int) and 0 <= c[2] < 64:
+            return True
+        if c[0] == "bin" and c[1] == "BitAnd" and any(x[0] == "const" and isinstance(x[2], int) and 0 <= x[2] < 64 for x in (c[2], c[3])):
+            return True
+        return False
     if op == "Mul":
-        from .mem import sq_of
+        # L-ROWMAJOR: a * N with a < N does not overflow when N * N is representable
+        for x, N in ((a, c), (c, a)):
+            if square_representable(crate, an, N) and fx.holds(b, lambda rel, x=x, N=N: rel.le(x, N)):
+                return True
         return False
     return False
+
+
+def square_representable(crate, an, N):
+    """N is the `order`-like scalar field of a struct every value of which was constructed with a
+    checked N * N (its length template contains the checked square of that field)"""
+    from .mem import sq_of
+    if not (N[0] == "mem" and N[3] is None):
+        return False
+    ri = an.region_info.get(N[1])
+    if not ri or not ri["chain"] or len(ri["chain"]) != 1:
+        return False
+    S, G = ri["chain"][0]
+    if S not in crate.prog.adts:
+        return False
+    for (fp, g, kind, tmpl) in crate.inv.len_templates(S):
+        if g == G and kind == "scalar" and _has_sq_hole(tmpl):
+            return True
+    return False
+
+
+def _has_sq_hole(t):
+    from .mem import sq_of
+    if not isinstance(t, tuple) or not t:
+        return False
+    if sq_of(t) == ("HOLE",):
+        return True
+    return any(_has_sq_hole(x) for x in t if isinstance(x, tuple))
 
 
 def always_variant(crate, an, fx, X, want):
